@@ -236,6 +236,13 @@ class Table(Vector):
 		# Build column map
 		self._column_map = self._build_column_map()
 
+	def fingerprint(self) -> int:
+		# A table is not told when one of its columns is written (through a live column
+		# view or item assignment) or replaced, so a table-level memo would go stale.
+		# Recombine the column fingerprints instead: each column caches its own.
+		self._fp = None
+		return super().fingerprint()
+
 	def __len__(self):
 		if len(self._underlying) == 0:
 			return 0
